@@ -523,3 +523,387 @@ Theorem model_passes : forall ops,
 Proof.
   intros ops Hwf. unfold ok_hist_C05. rewrite impl_refines_spec by exact Hwf. apply gouts_eqb_refl.
 Qed.
+
+(* ------------------------------------------------------------------ *)
+(* 3. consequences of the specification, for the states the specification reaches *)
+
+Fixpoint sexec (g : sstate) (ops : list gop) : sstate :=
+  match ops with
+  | [] => g
+  | o :: ops' => sexec (fst (sstep g o)) ops'
+  end.
+
+Lemma sexec_app g a b : sexec g (a ++ b) = sexec (sexec g a) b.
+Proof. revert g; induction a as [|o a IH]; intros g; simpl; auto. Qed.
+
+Lemma hist_wf_app g a b : hist_wf g (a ++ b) = hist_wf g a && hist_wf (sexec g a) b.
+Proof.
+  revert g; induction a as [|o a IH]; intros g; simpl; auto. rewrite IH, andb_assoc. reflexivity.
+Qed.
+
+(* consumer counts never go negative *)
+Definition cnt_ok (sp : sstate) : Prop :=
+  forall i, 0 <= st_rtp (sp_get sp i) /\ 0 <= st_flv (sp_get sp i).
+
+Lemma cnt_ok_set sp i v : cnt_ok sp -> 0 <= st_rtp v -> 0 <= st_flv v -> cnt_ok (sp_set sp i v).
+Proof.
+  intros H Hr Hf j. rewrite sp_get_set. destruct (Nat.eqb j i && _)%bool; auto.
+Qed.
+
+Lemma cnt_ok_kill sp i : cnt_ok sp -> cnt_ok (sp_kill sp i).
+Proof.
+  intros H. rewrite sp_kill_eq. destruct (negb _); auto. apply cnt_ok_set; simpl; auto; lia.
+Qed.
+
+Lemma cnt_ok_step sp o : cnt_ok sp -> cnt_ok (fst (sstep sp o)).
+Proof.
+  intros Hc. destruct o as [p hls|i|i|i|p| | |i flv|i flv|i r]; simpl.
+  - intros j. unfold sp_get; simpl. rewrite nth_snoc.
+    destruct (j <? length (sp_streams sp))%nat; [apply Hc|].
+    destruct (Nat.eqb j (length (sp_streams sp))); simpl; lia.
+  - destruct (i <? length (sp_streams sp))%nat; simpl; [|exact Hc].
+    set (sp1 := {| sp_last := mstore (sp_last sp) (st_path (sp_get sp i)) i; sp_streams := sp_streams sp |}).
+    assert (Hc1 : cnt_ok sp1) by exact Hc.
+    destruct (sp_resolve sp (st_path (sp_get sp i))) as [j|]; [|exact Hc1].
+    destruct (Nat.eqb i j); [exact Hc|].
+    destruct (consumers (sp_get sp j) <=? 0); simpl.
+    + apply cnt_ok_kill; exact Hc1.
+    + apply cnt_ok_set; simpl; auto; apply Hc.
+  - destruct (i <? length (sp_streams sp))%nat; simpl; [apply cnt_ok_kill|]; exact Hc.
+  - destruct (i <? length (sp_streams sp))%nat; simpl; [apply cnt_ok_kill|]; exact Hc.
+  - exact Hc.
+  - exact Hc.
+  - exact Hc.
+  - destruct (negb (i <? length (sp_streams sp))%nat || negb (st_live (sp_get sp i))); simpl; auto.
+    destruct (Hc i). apply cnt_ok_set; simpl; auto; destruct flv; lia.
+  - destruct (negb (i <? length (sp_streams sp))%nat || negb (st_live (sp_get sp i))); simpl; auto.
+    destruct ((if flv then st_flv (sp_get sp i) else st_rtp (sp_get sp i)) <=? 0) eqn:E; simpl; auto.
+    apply Z.leb_gt in E. destruct (Hc i). apply cnt_ok_set; simpl; auto; destruct flv; lia.
+  - destruct (i <? length (sp_streams sp))%nat; simpl; auto.
+    destruct ((consumers (sp_get sp i) <=? 0) && negb (r && st_hls (sp_get sp i))); simpl; auto.
+    apply cnt_ok_kill; exact Hc.
+Qed.
+
+Lemma cnt_ok_init : cnt_ok sinit.
+Proof. intros [|i]; simpl; lia. Qed.
+
+Lemma sexec_inv ops : forall sp,
+  keys_ok sp -> cnt_ok sp -> keys_ok (sexec sp ops) /\ cnt_ok (sexec sp ops).
+Proof.
+  induction ops as [|o ops IH]; intros sp Hk Hc; simpl; auto.
+  apply IH; [apply keys_ok_step | apply cnt_ok_step]; auto.
+Qed.
+
+Lemma reach_keys_ok ops : keys_ok (sexec sinit ops).
+Proof. apply sexec_inv; [apply keys_ok_init | apply cnt_ok_init]. Qed.
+
+Lemma reach_cnt_ok ops : cnt_ok (sexec sinit ops).
+Proof. apply sexec_inv; [apply keys_ok_init | apply cnt_ok_init]. Qed.
+
+(* the run of the specification is the list of answers along [sexec] *)
+Lemma srun_app g a b : srun g (a ++ b) = srun g a ++ srun (sexec g a) b.
+Proof.
+  revert g; induction a as [|o a IH]; intros g; simpl; auto.
+  destruct (sstep g o) as [g1 r] eqn:E. simpl. rewrite IH. reflexivity.
+Qed.
+
+(* (a) what a lookup returns is a live stream whose path is the key *)
+Lemma resolve_live_path sp k i :
+  keys_ok sp -> sp_resolve sp k = Some i ->
+  (i < length (sp_streams sp))%nat /\ st_live (sp_get sp i) = true /\ st_path (sp_get sp i) = k.
+Proof.
+  intros [_ Hk] Hr. unfold sp_resolve in Hr.
+  destruct (mlookup (sp_last sp) k) as [j|] eqn:Hm; [|discriminate].
+  destruct (st_live (sp_get sp j)) eqn:Hl; [|discriminate]. inversion Hr; subst j.
+  apply mlookup_in in Hm. destruct (Hk k i Hm). auto.
+Qed.
+
+Theorem lookup_only_live : forall ops k i,
+  let sp := sexec sinit ops in
+  sp_resolve sp k = Some i ->
+  (i < length (sp_streams sp))%nat /\ st_live (sp_get sp i) = true /\ st_path (sp_get sp i) = k.
+Proof. intros ops k i sp. apply resolve_live_path. apply reach_keys_ok. Qed.
+
+Theorem get_only_live : forall ops p i,
+  let sp := sexec sinit ops in
+  snd (sstep sp (GGet p)) = RGet (Some i) ->
+  (i < length (sp_streams sp))%nat /\ st_live (sp_get sp i) = true /\
+  st_path (sp_get sp i) = canonical_path p.
+Proof.
+  intros ops p i sp H. simpl in H. inversion H as [Hr]. apply lookup_only_live. exact Hr.
+Qed.
+
+(* (b) the most recently registered stream is the one found *)
+Theorem regist_then_resolves : forall sp i,
+  (i < length (sp_streams sp))%nat -> st_live (sp_get sp i) = true ->
+  sp_resolve (fst (sstep sp (GRegist i))) (st_path (sp_get sp i)) = Some i.
+Proof.
+  intros sp i Hi Hl. simpl. apply Nat.ltb_lt in Hi. rewrite Hi. simpl.
+  set (k := st_path (sp_get sp i)).
+  set (sp1 := {| sp_last := mstore (sp_last sp) k i; sp_streams := sp_streams sp |}).
+  assert (H1 : sp_resolve sp1 k = Some i).
+  { unfold sp_resolve. simpl. rewrite mlookup_mstore_same.
+    change (sp_get sp1 i) with (sp_get sp i). rewrite Hl. reflexivity. }
+  destruct (sp_resolve sp k) as [j|] eqn:Hr; [|exact H1].
+  destruct (Nat.eqb i j) eqn:E.
+  - apply Nat.eqb_eq in E; subst j. exact Hr.
+  - destruct (consumers (sp_get sp j) <=? 0); simpl.
+    + unfold sp_resolve. rewrite last_kill. simpl. rewrite mlookup_mstore_same, live_kill.
+      change (sp_get sp1 i) with (sp_get sp i). rewrite Hl, E. reflexivity.
+    + unfold sp_resolve. simpl. rewrite mlookup_mstore_same, sp_get_set. rewrite E. simpl.
+      change (sp_get sp1 i) with (sp_get sp i). rewrite Hl. reflexivity.
+Qed.
+
+(* registering over a live stream retires it: closed at once without consumers, else marked for the
+   retire task and left live for its consumers; in both cases no key resolves to it any more *)
+Theorem regist_retires_old : forall ops i j,
+  let sp := sexec sinit ops in
+  let sp' := fst (sstep sp (GRegist i)) in
+  (i < length (sp_streams sp))%nat -> st_live (sp_get sp i) = true ->
+  sp_resolve sp (st_path (sp_get sp i)) = Some j -> j <> i ->
+  (if consumers (sp_get sp j) <=? 0 then st_live (sp_get sp' j) = false
+   else st_live (sp_get sp' j) = true /\ st_retire (sp_get sp' j) = true /\
+        st_rtp (sp_get sp' j) = st_rtp (sp_get sp j) /\ st_flv (sp_get sp' j) = st_flv (sp_get sp j)) /\
+  (forall k, sp_resolve sp' k <> Some j).
+Proof.
+  intros ops i j sp sp' Hi Hl Hr Hne.
+  assert (Hok : keys_ok sp) by apply reach_keys_ok.
+  destruct (resolve_live_path sp _ j Hok Hr) as [Hj [Hlj Hpj]].
+  assert (Hok' : keys_ok sp') by (apply keys_ok_step; exact Hok).
+  assert (Hlast : forall k, mlookup (sp_last sp') k = Some j -> False).
+  { intros k Hm. destruct Hok' as [_ Hk']. apply mlookup_in in Hm.
+    assert (Hin : In (k, j) (mstore (sp_last sp) (st_path (sp_get sp i)) i)).
+    { revert Hm. unfold sp'. simpl. apply Nat.ltb_lt in Hi. rewrite Hi. simpl. rewrite Hr.
+      assert (E : Nat.eqb i j = false) by (apply Nat.eqb_neq; congruence). rewrite E.
+      destruct (consumers (sp_get sp j) <=? 0); simpl; [rewrite last_kill|]; simpl; auto. }
+    apply in_mstore in Hin as [E|[Hin Hne2]].
+    - inversion E; congruence.
+    - destruct Hok as [_ Hk]. destruct (Hk k j Hin) as [_ Hp]. simpl in Hne2. congruence. }
+  split.
+  - unfold sp'. simpl. apply Nat.ltb_lt in Hi. rewrite Hi. simpl. rewrite Hr.
+    assert (E : Nat.eqb i j = false) by (apply Nat.eqb_neq; congruence). rewrite E.
+    destruct (consumers (sp_get sp j) <=? 0); simpl.
+    + rewrite live_kill, Nat.eqb_refl, andb_false_r. reflexivity.
+    + rewrite sp_get_set. simpl. apply Nat.ltb_lt in Hj. rewrite Nat.eqb_refl, Hj. simpl. auto.
+  - intros k Hk. unfold sp_resolve in Hk.
+    destruct (mlookup (sp_last sp') k) as [x|] eqn:Hm; [|discriminate].
+    destruct (st_live (sp_get sp' x)); [|discriminate]. inversion Hk; subst x. eauto.
+Qed.
+
+Lemma close_step_kill sp j : fst (sstep sp (GClose j)) = sp_kill sp j.
+Proof.
+  simpl. destruct (j <? length (sp_streams sp))%nat eqn:E; simpl; auto.
+  apply Nat.ltb_ge in E. rewrite sp_kill_eq. unfold sp_get. rewrite nth_overflow by exact E. reflexivity.
+Qed.
+
+Lemma unregist_step_kill sp j : fst (sstep sp (GUnregist j)) = sp_kill sp j.
+Proof. apply close_step_kill. Qed.
+
+Lemma resolve_kill sp j k :
+  sp_resolve (sp_kill sp j) k =
+  match sp_resolve sp k with Some i => if Nat.eqb i j then None else Some i | None => None end.
+Proof.
+  unfold sp_resolve. rewrite last_kill. destruct (mlookup (sp_last sp) k) as [i|]; auto.
+  rewrite live_kill. destruct (st_live (sp_get sp i)); simpl; auto.
+  destruct (Nat.eqb i j); reflexivity.
+Qed.
+
+(* closing or unregistering stream j removes exactly the resolutions to j *)
+Theorem close_effect : forall sp j k,
+  sp_resolve (fst (sstep sp (GClose j))) k =
+  match sp_resolve sp k with Some i => if Nat.eqb i j then None else Some i | None => None end.
+Proof. intros. rewrite close_step_kill. apply resolve_kill. Qed.
+
+Theorem unregist_effect : forall sp j k,
+  sp_resolve (fst (sstep sp (GUnregist j))) k =
+  match sp_resolve sp k with Some i => if Nat.eqb i j then None else Some i | None => None end.
+Proof. intros. rewrite unregist_step_kill. apply resolve_kill. Qed.
+
+(* unregistering (or closing) a stream that is not the one currently found under its path — a
+   retired stream — leaves every resolution as it was: the successor stays *)
+Theorem unregist_retired_keeps_successor : forall ops j,
+  let sp := sexec sinit ops in
+  sp_resolve sp (st_path (sp_get sp j)) <> Some j ->
+  forall k, sp_resolve (fst (sstep sp (GUnregist j))) k = sp_resolve sp k /\
+            sp_resolve (fst (sstep sp (GClose j))) k = sp_resolve sp k.
+Proof.
+  intros ops j sp Hne k. rewrite unregist_effect, close_effect.
+  destruct (sp_resolve sp k) as [i|] eqn:Hr; auto.
+  destruct (Nat.eqb i j) eqn:E; auto.
+  apply Nat.eqb_eq in E; subst i. exfalso. apply Hne.
+  destruct (resolve_live_path sp k j (reach_keys_ok ops) Hr) as [_ [_ Hp]]. rewrite Hp. exact Hr.
+Qed.
+
+(* liveness is never regained, and stream numbers are never reused *)
+Lemma length_step sp o : (length (sp_streams sp) <= length (sp_streams (fst (sstep sp o))))%nat.
+Proof.
+  destruct o as [p hls|i|i|i|p| | |i flv|i flv|i r]; simpl; auto.
+  - rewrite app_length. simpl. lia.
+  - destruct (i <? length (sp_streams sp))%nat; simpl; auto.
+    destruct (sp_resolve sp (st_path (sp_get sp i))) as [j|]; simpl; auto.
+    destruct (Nat.eqb i j); auto.
+    destruct (consumers (sp_get sp j) <=? 0); simpl; [rewrite length_kill | rewrite lset_length]; auto.
+  - destruct (i <? length (sp_streams sp))%nat; simpl; auto. rewrite length_kill; auto.
+  - destruct (i <? length (sp_streams sp))%nat; simpl; auto. rewrite length_kill; auto.
+  - destruct (negb (i <? length (sp_streams sp))%nat || negb (st_live (sp_get sp i))); simpl; auto.
+    rewrite lset_length; auto.
+  - destruct (negb (i <? length (sp_streams sp))%nat || negb (st_live (sp_get sp i))); simpl; auto.
+    destruct ((if flv then st_flv (sp_get sp i) else st_rtp (sp_get sp i)) <=? 0); simpl; auto.
+    rewrite lset_length; auto.
+  - destruct (i <? length (sp_streams sp))%nat; simpl; auto.
+    destruct ((consumers (sp_get sp i) <=? 0) && negb (r && st_hls (sp_get sp i))); simpl; auto.
+    rewrite length_kill; auto.
+Qed.
+
+Lemma dead_step sp o j :
+  (j < length (sp_streams sp))%nat -> st_live (sp_get sp j) = false ->
+  st_live (sp_get (fst (sstep sp o)) j) = false.
+Proof.
+  intros Hj Hd.
+  assert (Hkill : forall s i, st_live (sp_get s j) = false -> st_live (sp_get (sp_kill s i) j) = false).
+  { intros s i H. rewrite live_kill, H. reflexivity. }
+  assert (Hset : forall s i v, st_live (sp_get s j) = false -> (i = j -> st_live v = false) ->
+                               st_live (sp_get (sp_set s i v) j) = false).
+  { intros s i v H Hv. rewrite sp_get_set. destruct (Nat.eqb j i && _)%bool eqn:E; auto.
+    apply andb_true_iff in E as [E _]. apply Nat.eqb_eq in E. auto. }
+  destruct o as [p hls|i|i|i|p| | |i flv|i flv|i r]; simpl; auto.
+  - unfold sp_get; simpl. rewrite nth_snoc. apply Nat.ltb_lt in Hj. rewrite Hj. exact Hd.
+  - destruct (i <? length (sp_streams sp))%nat; simpl; auto.
+    destruct (sp_resolve sp (st_path (sp_get sp i))) as [x|]; simpl; auto.
+    destruct (Nat.eqb i x); auto.
+    destruct (consumers (sp_get sp x) <=? 0); simpl.
+    + apply Hkill. exact Hd.
+    + apply Hset; [exact Hd|]. intros ->. simpl. exact Hd.
+  - destruct (i <? length (sp_streams sp))%nat; simpl; auto.
+  - destruct (i <? length (sp_streams sp))%nat; simpl; auto.
+  - destruct (i <? length (sp_streams sp))%nat; simpl; auto.
+    destruct (st_live (sp_get sp i)) eqn:Hl; simpl; auto.
+    apply Hset; auto. intros ->. congruence.
+  - destruct (i <? length (sp_streams sp))%nat; simpl; auto.
+    destruct (st_live (sp_get sp i)) eqn:Hl; simpl; auto.
+    destruct ((if flv then st_flv (sp_get sp i) else st_rtp (sp_get sp i)) <=? 0); simpl; auto.
+    apply Hset; auto. intros ->. congruence.
+  - destruct (i <? length (sp_streams sp))%nat; simpl; auto.
+    destruct ((consumers (sp_get sp i) <=? 0) && negb (r && st_hls (sp_get sp i))); simpl; auto.
+Qed.
+
+Lemma dead_forever ops : forall sp j,
+  (j < length (sp_streams sp))%nat -> st_live (sp_get sp j) = false ->
+  st_live (sp_get (sexec sp ops) j) = false.
+Proof.
+  induction ops as [|o ops IH]; intros sp j Hj Hd; simpl; auto.
+  apply IH; [|apply dead_step; auto].
+  pose proof (length_step sp o). lia.
+Qed.
+
+(* a stream that was closed or unregistered is never returned by any later lookup *)
+Theorem closed_never_returned : forall ops1 j ops2 k,
+  (j < length (sp_streams (sexec sinit ops1)))%nat ->
+  sp_resolve (sexec sinit (ops1 ++ GClose j :: ops2)) k <> Some j /\
+  sp_resolve (sexec sinit (ops1 ++ GUnregist j :: ops2)) k <> Some j.
+Proof.
+  intros ops1 j ops2 k Hj.
+  assert (H : forall o, fst (sstep (sexec sinit ops1) o) = sp_kill (sexec sinit ops1) j ->
+                        sp_resolve (sexec sinit (ops1 ++ o :: ops2)) k <> Some j).
+  { intros o Ho Hr. rewrite sexec_app in Hr. simpl in Hr. rewrite Ho in Hr.
+    assert (Hd : st_live (sp_get (sexec (sp_kill (sexec sinit ops1) j) ops2) j) = false).
+    { apply dead_forever; [rewrite length_kill; exact Hj|].
+      rewrite live_kill, Nat.eqb_refl, andb_false_r. reflexivity. }
+    unfold sp_resolve in Hr.
+    destruct (mlookup _ k) as [x|]; [|discriminate].
+    destruct (st_live (sp_get _ x)) eqn:Hl; [|discriminate]. inversion Hr; subst x. congruence. }
+  split; apply H; [apply close_step_kill | apply unregist_step_kill].
+Qed.
+
+(* (c) the idle task closes a stream only when it has no consumer of any protocol and no recent HLS
+   access; its answer says whether it closed it; other streams are untouched *)
+Theorem idle_only_when_unused : forall ops i r,
+  let sp := sexec sinit ops in
+  let s := sp_get sp i in
+  let sp' := fst (sstep sp (GIdle i r)) in
+  (st_live s = true -> st_live (sp_get sp' i) = false ->
+     st_rtp s = 0 /\ st_flv s = 0 /\ (r = false \/ st_hls s = false)) /\
+  (snd (sstep sp (GIdle i r)) = RIdle true <->
+     st_live s = true /\ st_rtp s = 0 /\ st_flv s = 0 /\ (r = false \/ st_hls s = false)) /\
+  (snd (sstep sp (GIdle i r)) = RIdle true -> st_live (sp_get sp' i) = false) /\
+  (forall j, j <> i -> sp_get sp' j = sp_get sp j).
+Proof.
+  intros ops i r sp s sp'.
+  destruct (reach_cnt_ok ops i) as [Hr Hf]. fold sp in Hr, Hf. fold s in Hr, Hf.
+  assert (Hcond : (consumers s <=? 0) && negb (r && st_hls s) = true <->
+                  st_rtp s = 0 /\ st_flv s = 0 /\ (r = false \/ st_hls s = false)).
+  { unfold consumers. rewrite andb_true_iff, Z.leb_le, negb_true_iff, andb_false_iff.
+    split; [intros [H1 H2] | intros [H1 [H2 H3]]]; repeat split; auto; lia. }
+  unfold sp'. simpl. fold s.
+  destruct (i <? length (sp_streams sp))%nat eqn:Hi; simpl.
+  - destruct ((consumers s <=? 0) && negb (r && st_hls s)) eqn:C; simpl.
+    + assert (C' := proj1 Hcond eq_refl).
+      assert (Hk : st_live (sp_get (sp_kill sp i) i) = false).
+      { rewrite live_kill, Nat.eqb_refl, andb_false_r. reflexivity. }
+      refine (conj _ (conj _ (conj _ _))).
+      * intros _ _. exact C'.
+      * split.
+        -- intros X. split; [congruence | exact C'].
+        -- intros [X _]. rewrite X. reflexivity.
+      * intros _. exact Hk.
+      * intros j Hj. apply other_kill; exact Hj.
+    + refine (conj _ (conj _ (conj _ _))).
+      * intros H1 H2. fold s in H2. congruence.
+      * split.
+        -- intros X. discriminate X.
+        -- intros [_ X]. apply Hcond in X. discriminate X.
+      * intros X. discriminate X.
+      * reflexivity.
+  - apply Nat.ltb_ge in Hi.
+    assert (Hd : st_live s = false) by (unfold s, sp_get; rewrite nth_overflow by exact Hi; reflexivity).
+    refine (conj _ (conj _ (conj _ _))).
+    + intros H1. congruence.
+    + split.
+      * intros X. discriminate X.
+      * intros [X _]. congruence.
+    + intros X. discriminate X.
+    + reflexivity.
+Qed.
+
+(* (d) counts and listings range over exactly the keys that resolve to a live stream *)
+Definition resolves (sp : sstate) (k : bytes) : bool :=
+  match sp_resolve sp k with Some _ => true | None => false end.
+Definition consumers_at (sp : sstate) (k : bytes) : Z :=
+  match sp_resolve sp k with Some i => consumers (sp_get sp i) | None => 0 end.
+
+Lemma live_keys_are_resolving sp l :
+  (forall k i, In (k, i) l -> mlookup (sp_last sp) k = Some i) ->
+  map fst (filter (sp_live sp) l) = filter (resolves sp) (map fst l).
+Proof.
+  induction l as [|[k i] l IH]; simpl; intros H; auto.
+  unfold resolves at 1, sp_resolve. rewrite (H k i) by auto.
+  unfold sp_live at 1. simpl.
+  destruct (st_live (sp_get sp i)); simpl; rewrite IH; auto.
+Qed.
+
+Lemma live_consumers_sum sp l : forall acc,
+  (forall k i, In (k, i) l -> mlookup (sp_last sp) k = Some i) ->
+  fold_left (fun a e => a + consumers (sp_get sp (snd e))) (filter (sp_live sp) l) acc =
+  fold_left (fun a k => a + consumers_at sp k) (map fst l) acc.
+Proof.
+  induction l as [|[k i] l IH]; simpl; intros acc H; auto.
+  unfold consumers_at at 2, sp_resolve. rewrite (H k i) by auto.
+  unfold sp_live at 1. simpl.
+  destruct (st_live (sp_get sp i)); simpl; [|rewrite Z.add_0_r]; apply IH; auto.
+Qed.
+
+Theorem count_matches_live_set : forall ops,
+  let sp := sexec sinit ops in
+  let keys := map fst (sp_last sp) in
+  snd (sstep sp GCount) =
+    RCount (Z.of_nat (length (filter (resolves sp) keys)))
+           (fold_left (fun a k => a + consumers_at sp k) keys 0) /\
+  snd (sstep sp GList) = RList (sort_paths (filter (resolves sp) keys)) /\
+  NoDup keys.
+Proof.
+  intros ops sp keys. destruct (reach_keys_ok ops) as [Hn Hk]. fold sp in Hn, Hk.
+  assert (H : forall k i, In (k, i) (sp_last sp) -> mlookup (sp_last sp) k = Some i).
+  { intros k i Hin. apply in_mlookup; auto. }
+  simpl. unfold keys. rewrite <- live_keys_are_resolving by exact H.
+  rewrite map_length, live_consumers_sum by exact H. auto.
+Qed.
